@@ -42,7 +42,8 @@ class AsyncRT:
         if key not in self._cache:
             fi = self.model.func(qual)
             ev = SymEval(self.model, inline=inline, self_types=SELF_TYPES)
-            self._cache[key] = ev.run_function(fi)
+            owner = qual.rsplit(".", 1)[0]
+            self._cache[key] = ev.run_function(fi, as_class=owner if owner in self.model.classes and owner != fi.cls and fi.parent is None else None)
         return self._cache[key]
 
     def node(self, name: str, inline=()) -> Result:
